@@ -27,6 +27,7 @@ def dispatch1 (op : String) (j : Json) : R Json :=
   | "simAll" => hSimAll j
   | "qc" => hQC j
   | "objRun" => hObjRun j
+  | "hapObjRun" => hHapObjRun j
   | "bpQuery" => hBpQuery j
   | "bpEncode" => hBpEncode j
   | "bpParse" => hBpParse j
